@@ -258,6 +258,8 @@ def Term.apply (cw : Nat → Nat) (t : Term) : Tok → Term × List Ev
 def Term.resize (t : Term) (w h : Nat) : Term × List Ev :=
   let m := t.main.resize w h
   let a := t.alt.resize w h
-  ({ t with main := m, alt := a }, [.style m.sty, .style a.sty])
+  let t' := { t with main := m, alt := a }
+  -- both buffers report their rendition, then the active buffer is announced
+  (t', [.style m.sty, .style a.sty, .cursor t'.scr.cx t'.scr.cy, .style t'.scr.sty])
 
 end TM
